@@ -155,6 +155,14 @@ func ruleErrPropagate(c *Ctx, r *R) {
 			if kind == "" {
 				return
 			}
+			allErrs := map[ssa.Value]bool{}
+			instrs(fn, func(_ *ssa.BasicBlock, _ int, in2 ssa.Instruction) {
+				if c2, ok := in2.(*ssa.Call); ok {
+					if e2, k2 := producerErr(c2); k2 != "" && e2 != nil {
+						allErrs[e2] = true
+					}
+				}
+			})
 			k++
 			key := name + "|" + kind + "#" + itoa(k)
 			if reason, ok := errDropExceptions[name+"|"+kind]; ok && !hasErrResult {
@@ -214,10 +222,10 @@ func ruleErrPropagate(c *Ctx, r *R) {
 				}
 				if cf, ok := g.asCmp(); ok {
 					x, y := cf.x, cf.y
-					if y == e {
+					if y == e || latestErrPhi(y, e, allErrs) {
 						x, y = y, x
 					}
-					if x == e {
+					if x == e || latestErrPhi(x, e, allErrs) {
 						isEnd := strings.HasSuffix(path(y), "End")
 						if cf.op == token.EQL && (isNilConst(y) || isEnd) {
 							return ss(2), true
@@ -672,4 +680,23 @@ func paramReachesSink(helper *ssa.Function, p *ssa.Parameter, depth int) bool {
 		}
 	})
 	return found
+}
+
+// latestErrPhi: v is the variable that holds the error of the latest pull in a three-clause loop (item, err := s.Next(ctx); for
+// ; err == nil; item, err = s.Next(ctx)): a merge all of whose alternatives are error results of producer calls, e among them.
+func latestErrPhi(v ssa.Value, e ssa.Value, allErrs map[ssa.Value]bool) bool {
+	phi, ok := v.(*ssa.Phi)
+	if !ok || e == nil {
+		return false
+	}
+	mine := false
+	for _, ed := range phi.Edges {
+		if ed == e {
+			mine = true
+		}
+		if !allErrs[ed] {
+			return false
+		}
+	}
+	return mine
 }
